@@ -378,6 +378,16 @@ pub fn interpret_source(src: &str) -> Result<(SourceTables, proc_macro2::TokenSt
         digits_after(src, "LLKParser::new(")
     }
     .ok_or_else(|| anyhow!("no parser constructor call found in generated source"))?;
+    // the lookahead size handed to the TokenStream: `MAX_K` (LL) or a literal (LR)
+    if let Some(i) = src.find("::match_function,") {
+        let rest = &src[i + "::match_function,".len()..];
+        let arg: String = rest.chars().take_while(|c| *c != ',').collect();
+        if arg != "MAX_K" {
+            t.max_k = arg.parse().map_err(|_| anyhow!("cannot read the lookahead argument of the TokenStream constructor: {arg}"))?;
+        }
+    } else {
+        bail!("no TokenStream constructor call found in generated source");
+    }
     t.trim = src.contains(".trim_parse_tree()");
     t.disable_recovery = src.contains(".disable_recovery()");
     t.max_depth = digits_after(src, ".set_max_parsing_depth(");
